@@ -233,186 +233,343 @@ func vfc31Key(bs []vfc31Block) string {
 func TestVF_C31(t *testing.T) {
 	r := vfkit.Start(t, "C31")
 	defer r.Finish()
-	r.Rule("case = 1..30 block metas whose source lists are drawn from a pool of 1..12 ULIDs (equal sets under different block ids, nested, partially overlapping, disjoint, level-1 blocks next to their compactions, repeated/empty source lists) in 1..3 compaction groups (resolution x external labels); " +
-		"the real DefaultDeduplicateFilter.Filter is run with concurrency 1, 2, 8 and 32 on differently built input maps (two at concurrency 1 and 2, one at 8 and 32: 6 runs per case, filter objects reused across cases as the fetcher does); " +
-		"oracle (own group identity and set arithmetic): every hidden block has a KEPT block of the same group whose sources are a superset; every source of a group is still held by a kept block of that group; DuplicateIDs() == hidden set; same outcome in all 6 runs; " +
-		"distinct = normalised input; non-trivial = the filter hid at least one block")
-	n := r.N(4000, 100000)
+	r.Rule("case = a HISTORY of 2..4 listings; the first has 1..30 block metas whose source lists are drawn from a pool of 1..12 ULIDs (equal sets under different block ids, nested, partially overlapping, disjoint, level-1 blocks next to their compactions, repeated/empty source lists) in 1..3 compaction groups (resolution x external labels); every next listing is derived from the previous one: blocks disappear, come back, new blocks appear, the SAME ULID returns with other external labels / resolution (= another compaction group), source lists change; " +
+		"ONE DefaultDeduplicateFilter instance (concurrency 1|2|8|32 chosen per history) filters all listings of the history in turn, as the fetcher reuses its filter; every listing is also filtered by a fresh filter of another concurrency on a differently built map, the first listing by fresh filters of the two remaining concurrency levels too; " +
+		"oracle per call, depending only on that call's listing (own group identity and set arithmetic): every hidden block has a KEPT block of the same group whose sources are a superset; every source of a group is still held by a kept block of that group; DuplicateIDs() == hidden set; the reused filter's outcome == the fresh filters' outcome; " +
+		"evaluation = one Filter call; distinct = normalised history; non-trivial = some call hid a block")
+	n := r.N(3200, 80000)
 	r.Require(int64(n)*6, n/4)
 	r.Assume("concurrency >= 1 (NewDeduplicateFilter(0) has no worker and is not a supported configuration)")
 	r.Assume("block ids are unique within one listing (they are map keys)")
+	r.Assume("concurrency is a constructor parameter: it varies between histories and between the reused and the fresh filters of one listing, not between the calls of one instance")
 	ctx := context.Background()
 	synced := extprom.NewTxGaugeVec(nil, prometheus.GaugeOpts{}, []string{"state"})
-	concs := []int{1, 2, 8, 32}
-	filters := make([]*DefaultDeduplicateFilter, len(concs))
-	for i, c := range concs {
-		filters[i] = NewDeduplicateFilter(c)
-	}
 	for c := 0; c < n; c++ {
 		if !r.Want(c) {
 			continue
 		}
 		rng := r.Rand(c)
 		blocks, class := vfc31Gen(rng)
+		hist := vfc31GenHistory(rng, blocks)
 		if c%2000 == 0 {
 			synced.ResetTx() // keeps the gauge small; not part of the oracle
 		}
-		r.Guard(c, "dedup-filter", map[string]any{"class": class, "blocks": vfc31Fmt(blocks)}, func() {
-			vfc31Check(ctx, r, c, rng, blocks, class, concs, filters, synced)
+		var wit []any
+		for _, l := range hist {
+			wit = append(wit, vfc31Fmt(l))
+		}
+		r.Guard(c, "dedup-filter", map[string]any{"class": class, "listings": wit}, func() {
+			vfc31CheckHistory(ctx, r, c, rng, hist, class, synced)
 		})
 	}
 }
 
-func vfc31Check(ctx context.Context, r *vfkit.Run, c int, rng *rand.Rand, blocks []vfc31Block, class string, concs []int, filters []*DefaultDeduplicateFilter, synced GaugeVec) {
-	byID := make(map[ulid.ULID]vfc31Block, len(blocks))
-	for i := range blocks {
-		blocks[i].grp = blocks[i].group()
-		blocks[i].set = vfc31SrcSet(blocks[i].Sources)
-		byID[blocks[i].ID] = blocks[i]
-	}
-	var refOutcome string
-	var refRun string
-	hidAny := false
-	for ci, conc := range concs {
-		for order := 0; order < 2; order++ {
-			if conc >= 8 && order == 0 {
-				continue // 6 runs per case: two insertion orders at concurrency 1 and 2, a shuffled one at 8 and 32
-			}
-			ins := blocks
-			if order == 1 {
-				ins = vfkit.Perm(rng, append([]vfc31Block(nil), blocks...))
-			}
-			var metas map[ulid.ULID]*metadata.Meta
-			if order == 0 {
-				metas = make(map[ulid.ULID]*metadata.Meta)
-			} else {
-				metas = make(map[ulid.ULID]*metadata.Meta, 64)
-			}
-			for _, b := range ins {
-				metas[b.ID] = b.meta()
-			}
-			run := fmt.Sprintf("concurrency=%d/order=%d", conc, order)
-			wit := func(extra map[string]any) map[string]any {
-				m := map[string]any{"class": class, "run": run, "blocks": vfc31Fmt(blocks)}
-				for k, v := range extra {
-					m[k] = v
-				}
-				return m
-			}
-			err := filters[ci].Filter(ctx, metas, synced, nil)
-			r.Eval(1)
-			if err != nil {
-				r.Violation(c, "filter-error", "Filter returned "+err.Error(), wit(nil))
-				return
-			}
-			dups := filters[ci].DuplicateIDs()
+var vfc31AllRes = []int64{0, 5 * 60 * 1000, 60 * 60 * 1000}
+var vfc31AllLbl = []map[string]string{{"cluster": "a"}, {"cluster": "b"}, {"cluster": "a", "replica": "1"}, {}}
 
-			var kept, hidden []vfc31Block
-			bogus := false
-			for id := range metas {
-				if _, ok := byID[id]; !ok {
-					bogus = true
-				}
-			}
-			if bogus {
-				r.Violation(c, "output-has-unknown-block", "the filtered map contains a block id that was not in the input", wit(nil))
-				return
-			}
-			for _, b := range blocks {
-				if _, ok := metas[b.ID]; ok {
-					kept = append(kept, b)
-				} else {
-					hidden = append(hidden, b)
-				}
-			}
-			keptIDs := make([]string, 0, len(kept))
-			for _, b := range kept {
-				keptIDs = append(keptIDs, b.ID.String())
-			}
-			sort.Strings(keptIDs)
-			hiddenIDs := make([]string, 0, len(hidden))
-			for _, b := range hidden {
-				hiddenIDs = append(hiddenIDs, b.ID.String())
-			}
-			sort.Strings(hiddenIDs)
-			if len(hidden) > 0 {
-				hidAny = true
-			}
-
-			// (1) every hidden block is covered by a kept block of its own group
-			for _, h := range hidden {
-				ok := false
-				for _, k := range kept {
-					if k.group() == h.group() && vfc31Covers(k, h) {
-						ok = true
-						break
-					}
-				}
-				if ok {
-					continue
-				}
-				fp := "hidden-block:no-block-covers-its-sources"
-				for _, k := range kept {
-					if vfc31Covers(k, h) {
-						fp = "hidden-block:covered-only-by-kept-block-of-another-group"
-					}
-				}
-				if fp == "hidden-block:no-block-covers-its-sources" {
-					for _, o := range hidden {
-						if o.ID != h.ID && o.group() == h.group() && vfc31Covers(o, h) {
-							fp = "hidden-block:covered-only-by-another-hidden-block"
-						}
-					}
-				}
-				r.Violation(c, fp, fmt.Sprintf("block %s (group %s, %d sources) was hidden but no kept block of its group has all its sources (%s, %s)", h.ID, h.group(), len(h.Sources), class, run),
-					wit(map[string]any{"hidden": hiddenIDs, "kept": keptIDs, "block": h.ID.String()}))
-				return
-			}
-			// (2) per group, every source is still held by a kept block
-			have := map[string]map[ulid.ULID]struct{}{}
-			for _, k := range kept {
-				g := k.group()
-				if have[g] == nil {
-					have[g] = map[ulid.ULID]struct{}{}
-				}
-				for _, s := range k.Sources {
-					have[g][s] = struct{}{}
-				}
-			}
-			for _, b := range blocks {
-				for _, s := range b.Sources {
-					if _, ok := have[b.group()][s]; !ok {
-						r.Violation(c, "source-lost:no-kept-block-of-the-group-holds-it", fmt.Sprintf("source %s of group %s is held by no kept block after filtering (%s, %s)", s, b.group(), class, run),
-							wit(map[string]any{"hidden": hiddenIDs, "kept": keptIDs, "source": s.String()}))
-						return
-					}
-				}
-			}
-			// (3) DuplicateIDs() is exactly the hidden set
-			dupIDs := make([]string, 0, len(dups))
-			for _, d := range dups {
-				dupIDs = append(dupIDs, d.String())
-			}
-			sort.Strings(dupIDs)
-			if strings.Join(dupIDs, ",") != strings.Join(hiddenIDs, ",") {
-				r.Violation(c, "duplicate-ids-differ-from-hidden-set", fmt.Sprintf("DuplicateIDs() has %d entries, %d blocks were removed from the map (%s, %s)", len(dupIDs), len(hiddenIDs), class, run),
-					wit(map[string]any{"hidden": hiddenIDs, "duplicate_ids": dupIDs}))
-				return
-			}
-			// (4) same outcome for every insertion order and concurrency
-			outcome := strings.Join(keptIDs, ",")
-			if refRun == "" {
-				refOutcome, refRun = outcome, run
-			} else if outcome != refOutcome {
-				r.Violation(c, "outcome-depends-on-order-or-concurrency", fmt.Sprintf("kept set differs between %s and %s (%s)", refRun, run, class),
-					wit(map[string]any{"kept_" + refRun: strings.Split(refOutcome, ","), "kept_" + run: keptIDs}))
-				return
+// vfc31GenHistory derives 1..3 further listings from the first one.
+func vfc31GenHistory(rng *rand.Rand, first []vfc31Block) [][]vfc31Block {
+	hist := [][]vfc31Block{first}
+	var pool []ulid.ULID
+	seen := map[ulid.ULID]bool{}
+	for _, b := range first {
+		for _, s := range b.Sources {
+			if !seen[s] {
+				seen[s] = true
+				pool = append(pool, s)
 			}
 		}
 	}
+	if len(pool) == 0 {
+		pool = append(pool, vfc31ID(rng))
+	}
+	// groups that occur in the first listing, plus possibly one that does not
+	type grp struct {
+		res int64
+		l   map[string]string
+	}
+	var groups []grp
+	gseen := map[string]bool{}
+	for _, b := range first {
+		if k := b.group(); !gseen[k] {
+			gseen[k] = true
+			groups = append(groups, grp{b.Res, b.Labels})
+		}
+	}
+	for len(groups) < 2 || (len(groups) < 4 && rng.Intn(3) == 0) {
+		g := grp{vfkit.Pick(rng, vfc31AllRes), vfkit.Pick(rng, vfc31AllLbl)}
+		if k := (vfc31Block{Res: g.res, Labels: g.l}).group(); !gseen[k] {
+			gseen[k] = true
+			groups = append(groups, g)
+		}
+	}
+	subset := func(k int) []ulid.ULID {
+		if k > len(pool) {
+			k = len(pool)
+		}
+		var s []ulid.ULID
+		for _, i := range rng.Perm(len(pool))[:k] {
+			s = append(s, pool[i])
+		}
+		return s
+	}
+	var gone []vfc31Block // blocks that disappeared and may come back
+	prev := first
+	for step, steps := 0, 1+rng.Intn(3); step < steps; step++ {
+		var next []vfc31Block
+		used := map[ulid.ULID]bool{}
+		for _, b := range prev {
+			nb := vfc31Block{ID: b.ID, Res: b.Res, Labels: b.Labels, Sources: b.Sources}
+			switch x := rng.Intn(20); {
+			case x < 3: // disappears (deleted / filtered out by an earlier filter of the chain)
+				gone = append(gone, nb)
+				continue
+			case x < 8: // same ULID, other external labels / resolution: another compaction group
+				g := groups[rng.Intn(len(groups))]
+				nb.Res, nb.Labels = g.res, g.l
+			case x < 10: // same ULID, other sources
+				nb.Sources = subset(1 + rng.Intn(4))
+			}
+			used[nb.ID] = true
+			next = append(next, nb)
+		}
+		for k := rng.Intn(3); k > 0 && len(gone) > 0; k-- { // comes back, maybe in another group
+			i := rng.Intn(len(gone))
+			nb := gone[i]
+			gone = append(gone[:i], gone[i+1:]...)
+			if used[nb.ID] {
+				continue
+			}
+			if rng.Intn(2) == 0 {
+				g := groups[rng.Intn(len(groups))]
+				nb.Res, nb.Labels = g.res, g.l
+			}
+			used[nb.ID] = true
+			next = append(next, nb)
+		}
+		for k := rng.Intn(3); k > 0; k-- { // new blocks: often with the sources of an existing one (a re-compaction / replica upload)
+			g := groups[rng.Intn(len(groups))]
+			nb := vfc31Block{ID: vfc31ID(rng), Res: g.res, Labels: g.l}
+			if len(next) > 0 && rng.Intn(2) == 0 {
+				nb.Sources = append([]ulid.ULID(nil), next[rng.Intn(len(next))].Sources...)
+			} else {
+				nb.Sources = subset(1 + rng.Intn(5))
+			}
+			if !used[nb.ID] {
+				used[nb.ID] = true
+				next = append(next, nb)
+			}
+		}
+		hist = append(hist, next)
+		prev = next
+	}
+	return hist
+}
+
+type vfc31Outcome struct {
+	kept, hidden       []vfc31Block
+	keptIDs, hiddenIDs []string
+	dupIDs             []string
+	unknown            bool
+	err                error
+}
+
+// vfc31Run filters one listing with the given filter instance.
+func vfc31Run(ctx context.Context, f *DefaultDeduplicateFilter, blocks []vfc31Block, rng *rand.Rand, shuffled bool, synced GaugeVec) vfc31Outcome {
+	ins := blocks
+	var metas map[ulid.ULID]*metadata.Meta
+	if shuffled {
+		ins = vfkit.Perm(rng, append([]vfc31Block(nil), blocks...))
+		metas = make(map[ulid.ULID]*metadata.Meta, 64)
+	} else {
+		metas = make(map[ulid.ULID]*metadata.Meta)
+	}
+	for _, b := range ins {
+		metas[b.ID] = b.meta()
+	}
+	var o vfc31Outcome
+	if o.err = f.Filter(ctx, metas, synced, nil); o.err != nil {
+		return o
+	}
+	in := make(map[ulid.ULID]struct{}, len(blocks))
+	for _, b := range blocks {
+		in[b.ID] = struct{}{}
+		if _, ok := metas[b.ID]; ok {
+			o.kept = append(o.kept, b)
+			o.keptIDs = append(o.keptIDs, b.ID.String())
+		} else {
+			o.hidden = append(o.hidden, b)
+			o.hiddenIDs = append(o.hiddenIDs, b.ID.String())
+		}
+	}
+	for id := range metas {
+		if _, ok := in[id]; !ok {
+			o.unknown = true
+		}
+	}
+	for _, d := range f.DuplicateIDs() {
+		o.dupIDs = append(o.dupIDs, d.String())
+	}
+	sort.Strings(o.keptIDs)
+	sort.Strings(o.hiddenIDs)
+	sort.Strings(o.dupIDs)
+	return o
+}
+
+// vfc31Oracle checks one outcome against its own listing only. Returns "" or (fingerprint, text, extra witness).
+func vfc31Oracle(blocks []vfc31Block, o vfc31Outcome) (string, string, map[string]any) {
+	if o.err != nil {
+		return "filter-error", "Filter returned " + o.err.Error(), nil
+	}
+	if o.unknown {
+		return "output-has-unknown-block", "the filtered map contains a block id that was not in the input", nil
+	}
+	ex := map[string]any{"hidden": o.hiddenIDs, "kept": o.keptIDs}
+	// (1) every hidden block is covered by a kept block of its own group
+	for _, h := range o.hidden {
+		ok := false
+		for _, k := range o.kept {
+			if k.group() == h.group() && vfc31Covers(k, h) {
+				ok = true
+				break
+			}
+		}
+		if ok {
+			continue
+		}
+		fp := "hidden-block:no-block-covers-its-sources"
+		for _, k := range o.kept {
+			if vfc31Covers(k, h) {
+				fp = "hidden-block:covered-only-by-kept-block-of-another-group"
+			}
+		}
+		if fp == "hidden-block:no-block-covers-its-sources" {
+			for _, x := range o.hidden {
+				if x.ID != h.ID && x.group() == h.group() && vfc31Covers(x, h) {
+					fp = "hidden-block:covered-only-by-another-hidden-block"
+				}
+			}
+		}
+		ex["block"] = h.ID.String()
+		return fp, fmt.Sprintf("block %s (group %s, %d sources) was hidden but no kept block of its group has all its sources", h.ID, h.group(), len(h.Sources)), ex
+	}
+	// (2) per group, every source is still held by a kept block
+	have := map[string]map[ulid.ULID]struct{}{}
+	for _, k := range o.kept {
+		g := k.group()
+		if have[g] == nil {
+			have[g] = map[ulid.ULID]struct{}{}
+		}
+		for _, s := range k.Sources {
+			have[g][s] = struct{}{}
+		}
+	}
+	for _, b := range blocks {
+		for _, s := range b.Sources {
+			if _, ok := have[b.group()][s]; !ok {
+				ex["source"] = s.String()
+				return "source-lost:no-kept-block-of-the-group-holds-it", fmt.Sprintf("source %s of group %s is held by no kept block after filtering", s, b.group()), ex
+			}
+		}
+	}
+	// (3) DuplicateIDs() is exactly the hidden set
+	if strings.Join(o.dupIDs, ",") != strings.Join(o.hiddenIDs, ",") {
+		ex["duplicate_ids"] = o.dupIDs
+		return "duplicate-ids-differ-from-hidden-set", fmt.Sprintf("DuplicateIDs() has %d entries, %d blocks were removed from the map", len(o.dupIDs), len(o.hiddenIDs)), ex
+	}
+	return "", "", nil
+}
+
+func vfc31CheckHistory(ctx context.Context, r *vfkit.Run, c int, rng *rand.Rand, hist [][]vfc31Block, class string, synced GaugeVec) {
+	concs := []int{1, 2, 8, 32}
+	hc := rng.Intn(len(concs))
+	reused := NewDeduplicateFilter(concs[hc]) // the one instance that sees the whole history
+	hidAny := false
+	var key []string
+	var wit []any
+	for _, l := range hist {
+		wit = append(wit, vfc31Fmt(l))
+	}
+	for li := range hist {
+		blocks := hist[li]
+		for i := range blocks {
+			blocks[i].grp = ""
+			blocks[i].grp = blocks[i].group()
+			blocks[i].set = vfc31SrcSet(blocks[i].Sources)
+		}
+		key = append(key, vfc31Key(blocks))
+		mk := func(run string, extra map[string]any) map[string]any {
+			m := map[string]any{"class": class, "run": run, "listing_index": li, "listings": wit, "reused_filter_concurrency": concs[hc]}
+			for k, v := range extra {
+				m[k] = v
+			}
+			return m
+		}
+		// fresh filters first: they decide single-call defects and are the reference for the reused instance
+		fresh := []int{concs[(hc+1+li)%len(concs)]}
+		if fresh[0] == concs[hc] {
+			fresh[0] = concs[(hc+1)%len(concs)]
+		}
+		if li == 0 {
+			fresh = nil
+			for i, cc := range concs {
+				if i != hc {
+					fresh = append(fresh, cc)
+				}
+			}
+		}
+		var ref vfc31Outcome
+		var refRun string
+		for fi, cc := range fresh {
+			run := fmt.Sprintf("listing %d/fresh filter/concurrency=%d", li, cc)
+			o := vfc31Run(ctx, NewDeduplicateFilter(cc), blocks, rng, fi%2 == 0, synced)
+			r.Eval(1)
+			if fp, txt, ex := vfc31Oracle(blocks, o); fp != "" {
+				r.Violation(c, fp, fmt.Sprintf("%s (%s, %s)", txt, class, run), mk(run, ex))
+				return
+			}
+			if refRun == "" {
+				ref, refRun = o, run
+			} else if strings.Join(o.keptIDs, ",") != strings.Join(ref.keptIDs, ",") {
+				r.Violation(c, "outcome-depends-on-order-or-concurrency", fmt.Sprintf("kept set differs between %s and %s (%s)", refRun, run, class),
+					mk(run, map[string]any{"kept_ref": ref.keptIDs, "kept": o.keptIDs}))
+				return
+			}
+			if len(o.hidden) > 0 {
+				hidAny = true
+			}
+		}
+		run := fmt.Sprintf("listing %d/filter reused since listing 0/concurrency=%d", li, concs[hc])
+		o := vfc31Run(ctx, reused, blocks, rng, li%2 == 1, synced)
+		r.Eval(1)
+		if o.err == nil && !o.unknown && strings.Join(o.keptIDs, ",") != strings.Join(ref.keptIDs, ",") {
+			fp := "outcome-depends-on-order-or-concurrency"
+			if li > 0 {
+				fp = "reused-filter:outcome-differs-from-fresh-filter-on-the-same-listing"
+			}
+			ofp, otxt, _ := vfc31Oracle(blocks, o)
+			r.Violation(c, fp, fmt.Sprintf("kept set of %s differs from %s (%s); cover check of the reused filter's outcome: %s %s", run, refRun, class, ofp, otxt),
+				mk(run, map[string]any{"kept_fresh": ref.keptIDs, "kept_reused": o.keptIDs, "hidden_fresh": ref.hiddenIDs, "hidden_reused": o.hiddenIDs}))
+			return
+		}
+		if fp, txt, ex := vfc31Oracle(blocks, o); fp != "" {
+			r.Violation(c, fp, fmt.Sprintf("%s (%s, %s)", txt, class, run), mk(run, ex))
+			return
+		}
+		if li > 0 {
+			r.Count("calls_on_reused_filter_after_listing_changed", 1)
+		}
+	}
 	if hidAny {
-		r.Distinct(vfc31Key(blocks))
+		r.Distinct(strings.Join(key, "#"))
 		r.Count("cases_with_hidden_block", 1)
 	}
-	r.Sample(map[string]any{"class": class, "blocks": len(blocks), "kept": len(strings.Split(refOutcome, ",")), "hid_some": hidAny})
+	r.Count(fmt.Sprintf("histories_of_%d_listings", len(hist)), 1)
+	r.Sample(map[string]any{"class": class, "listings": len(hist), "blocks_per_listing": func() []int {
+		var n []int
+		for _, l := range hist {
+			n = append(n, len(l))
+		}
+		return n
+	}(), "reused_filter_concurrency": concs[hc], "hid_some": hidAny})
 }
